@@ -217,7 +217,7 @@ def c19_run(prop, tier, seed):
 P_ASSUME = COMMON_ASSUME + ["the reference evaluator and the AST printer are trusted (guarded by the wrong-reference self-test and the mutation demos)"]
 
 SPECS = {}
-QUICK_FAMILIES = ["shape", "scc", "lat", "agg", "timeout", "ds", "par", "sugar", "macro", "pack", "packseg", "perm", "latbound"]
+QUICK_FAMILIES = ["shape", "scc", "lat", "agg", "timeout", "ds", "par", "sugar", "macro", "pack", "packseg", "perm", "latbound", "dsrerun"]
 SPECS["C01"] = {"run": prog_check(["shape", "scc", "shape-n3@thorough", "scc-n3@thorough"], "C01"), "replay": prog_replay,
                 "technique": "bounded-exhaustive enumeration of programs (compiled by the real macros) x all input databases, compared with a naive reference evaluator",
                 "assumptions": P_ASSUME + ["programs from the families F-shape and F-scc, domain {0,1}"]}
@@ -310,7 +310,7 @@ SPECS["C05"] = {"run": c05_run, "replay": sched_replay("par"),
 def c13_run(prop, tier, seed):
     build_sched()
     names = ["%s[%s]" % (h, v) for h in ("H9-rerun-tc", "H9-rerun-lattice-aggregate") for v in ("par", "par+irp")]
-    return [run_sched(prop, "par", names, tier, seed)] + prog_check(["scc", "lat", "agg", "par", "latbound"], "C13", report_compile_failures=False)(prop, tier, seed)
+    return [run_sched(prop, "par", names, tier, seed)] + prog_check(["scc", "lat", "agg", "par", "latbound", "dsrerun"], "C13", report_compile_failures=False)(prop, tier, seed)
 
 
 SPECS["C13"] = {"run": c13_run, "replay": sched_replay("par"),
